@@ -1,6 +1,17 @@
-//! C15: not implemented yet.
+//! C15 placeholder (being built): smoke test of the e2e helpers.
 use serde_json::{json, Value};
 
-pub fn run(_case: &Value) -> Value {
-    json!({"r": "unimplemented"})
+use crate::e2e;
+
+pub fn run(case: &Value) -> Value {
+    let fmt = case["format"].as_str().unwrap_or("image/jpeg");
+    let src = e2e::fixture(case["fixture"].as_str().unwrap_or("earth_apollo17.jpg"));
+    let s = e2e::signer(case["alg"].as_str().unwrap_or("ed25519"));
+    match e2e::sign(e2e::context(None), &e2e::minimal_manifest("t"), fmt, &src, s.as_ref()) {
+        Ok(out) => match e2e::read(e2e::context(None), fmt, &out) {
+            Ok(r) => json!({"r": "ok", "report": e2e::report(&r), "len": out.len()}),
+            Err(e) => json!({"r": "err", "kind": crate::util::err_class(&e)}),
+        },
+        Err(e) => json!({"r": "err", "kind": crate::util::err_class(&e), "detail": e.to_string()}),
+    }
 }
